@@ -28,7 +28,6 @@ fn route_of(input: &Value) -> (String, String, String) {
 fn tok_obs(rec: &zf::FlatRecord, rtype: u16, toks: &Value) -> Value {
     use domain::base::iana::Rtype;
     use domain::base::name::Name;
-    use domain::base::rdata::UnknownRecordData;
     use domain::base::scan::IterScanner;
     use domain::rdata::{Ns, ZoneRecordData};
     use std::str::FromStr;
@@ -56,20 +55,34 @@ fn tok_obs(rec: &zf::FlatRecord, rtype: u16, toks: &Value) -> Value {
             Err(_) => return json!({"from_str": "err"}),
         }
     }
-    if strs.first().map(|s| s == "\\#").unwrap_or(false) {
-        let mut sc = IterScanner::<_, Bytes>::new(strs.iter());
-        match UnknownRecordData::<Bytes>::scan(Rtype::from_int(rtype), &mut sc) {
-            Ok(u) => { let d: zf::FlatData = ZoneRecordData::Unknown(u); if d != *rec.data() { return json!({"unknown_scan": "differs"}); } }
-            Err(_) => return json!({"unknown_scan": "err"}),
-        }
-        let hex: String = strs[2..].concat();
-        match domain::utils::base16::decode_vec(&hex) {
-            Ok(v) => { use domain::base::rdata::ComposeRecordData; let mut w: Vec<u8> = Vec::new(); let _ = rec.data().compose_rdata(&mut w);
-                       if v != w { return json!({"decode_vec": "differs"}); } }
-            Err(_) => return json!({"decode_vec": "err"}),
-        }
-    }
     json!("eq")
+}
+
+/// The generic form read by the routes that take the marker themselves:
+/// UnknownRecordData::scan over an IterScanner, the hex words by
+/// base16::decode_vec.  "eq" where the tokens are not the generic form.
+fn tokm_obs(rec: &zf::FlatRecord, rtype: u16, toks: &Value) -> Value {
+    use domain::base::iana::Rtype;
+    use domain::base::rdata::{ComposeRecordData, UnknownRecordData};
+    use domain::base::scan::IterScanner;
+    use domain::rdata::ZoneRecordData;
+    let strs: Vec<String> = toks.as_array().map(|a| a.iter().map(|t| string_of(&t["t"])).collect()).unwrap_or_default();
+    if strs.first().map(|s| s != "\\#").unwrap_or(true) {
+        return json!("eq");
+    }
+    let mut sc = IterScanner::<_, Bytes>::new(strs.iter());
+    match UnknownRecordData::<Bytes>::scan(Rtype::from_int(rtype), &mut sc) {
+        Ok(u) => { let d: zf::FlatData = ZoneRecordData::Unknown(u); if d != *rec.data() || !sc.is_exhausted() { return json!({"unknown_scan": "differs"}); } }
+        Err(_) => return json!({"err": true}),
+    }
+    let hex: String = strs[2..].concat();
+    let mut w: Vec<u8> = Vec::new();
+    let _ = rec.data().compose_rdata(&mut w);
+    match domain::utils::base16::decode_vec(&hex) {
+        Ok(v) if v == w => json!("eq"),
+        Ok(_) => json!({"decode_vec": "differs"}),
+        Err(_) => json!({"decode_vec": "err"}),
+    }
 }
 
 fn name_of(rec: &zf::FlatRecord) -> domain::base::name::Name<Bytes> {
@@ -88,6 +101,7 @@ fn lbl_obs(ltexts: &Value) -> Value {
         let l = bytes_of(&e["l"]);
         let label = match Label::from_slice(&l) { Ok(x) => x, Err(_) => return json!({"bad_label": json_bytes(&l)}) };
         let lib_text = format!("{}", label);
+        if format!("{}", label.to_owned()) != lib_text { return json!({"label": json_bytes(&l), "to_owned": "differs"}); }
         for (who, t) in [("spec", string_of(&e["t"])), ("lib", lib_text.clone())] {
             match OwnedLabel::from_str(&t) {
                 Ok(o) if o.as_label().as_slice() == &l[..] && format!("{}", o) == lib_text && o.as_label().is_wildcard() == (l == b"*") => {}
@@ -198,8 +212,12 @@ fn run_one(input: &Value) -> Value {
     if let Some(st) = input.get("stext") {
         obs["spec"] = zf::read_back(&rec, &bytes_of(st), origin);
     }
+    if input.get("type_case").is_some() {
+        obs["tok"] = tok_words_obs(&rec, rtype);
+    }
     if let Some(toks) = input.get("toks") {
         obs["tok"] = tok_obs(&rec, rtype, toks);
+        obs["tokm"] = tokm_obs(&rec, rtype, toks);
     }
     if let Some(l) = input.get("ltexts") {
         obs["lbl"] = lbl_obs(l);
@@ -258,6 +276,24 @@ fn sweep() {
         }
     }
     println!("SWEEP n={} bad={}", n, bad);
+}
+
+/// The token route for the type sweep: the library's own record-data tokens
+/// (collected by a FormatWriter of the harness, cut into words) read by
+/// ZoneRecordData::scan over an IterScanner.
+fn tok_words_obs(rec: &zf::FlatRecord, rtype: u16) -> Value {
+    use domain::base::iana::Rtype;
+    use domain::base::name::Name;
+    use domain::base::scan::IterScanner;
+    use domain::rdata::ZoneRecordData;
+    let words = zf::rdata_words(rec);
+    let mut sc = IterScanner::<_, Bytes>::new(words.iter());
+    match ZoneRecordData::<Bytes, Name<Bytes>>::scan(Rtype::from_int(rtype), &mut sc) {
+        Ok(d) if sc.is_exhausted() && d == *rec.data() => json!("eq"),
+        Ok(_) => json!("neq"),
+        Err(e) if e.to_string().contains("only implemented by some Scanners") => json!("unsupported"),
+        Err(_) => json!("err"),
+    }
 }
 
 fn types() {
